@@ -324,6 +324,19 @@ func (prog Progress) focusedTransform(n datamodel.Node, na datamodel.NodeAssembl
 		if p.Len() > 1 && !createParents {
 			return fmt.Errorf("transform: parent position at %q did not exist (and createParents was false)", prog.Path)
 		}
+		if end {
+			// The transform function has already been asked (above, with no previous node).
+			if n2 == nil {
+				return ma.Finish() // removing what is not there changes nothing.
+			}
+			if err := ma.AssembleKey().AssignString(seg.String()); err != nil {
+				return err
+			}
+			if err := ma.AssembleValue().AssignNode(n2); err != nil {
+				return err
+			}
+			return ma.Finish()
+		}
 		if err := ma.AssembleKey().AssignString(seg.String()); err != nil {
 			return err
 		}
@@ -356,10 +369,25 @@ func (prog Progress) focusedTransform(n datamodel.Node, na datamodel.NodeAssembl
 			}
 			if ti == i {
 				prog.Path = prog.Path.AppendSegment(seg)
+				replaced = true
+				if p2.Len() == 0 {
+					// The end of the path: ask here, so that a nil replacement removes the element
+					// (handing nil to the value assembler would leave a nil entry in the list).
+					n2, err := fn(prog, v)
+					if err != nil {
+						return err
+					}
+					if n2 == nil {
+						continue
+					}
+					if err := la.AssembleValue().AssignNode(n2); err != nil {
+						return err
+					}
+					continue
+				}
 				if err := prog.focusedTransform(v, la.AssembleValue(), p2, fn, createParents); err != nil {
 					return err
 				}
-				replaced = true
 			} else {
 				if err := la.AssembleValue().AssignNode(v); err != nil {
 					return err
@@ -375,6 +403,19 @@ func (prog Progress) focusedTransform(n datamodel.Node, na datamodel.NodeAssembl
 			return fmt.Errorf("transform: cannot navigate path segment %q at %q because it is beyond the list bounds", seg, prog.Path)
 		}
 		prog.Path = prog.Path.AppendSegment(datamodel.PathSegmentOfInt(n.Length()))
+		if p2.Len() == 0 {
+			// Appending: a nil result appends nothing.
+			n2, err := fn(prog, nil)
+			if err != nil {
+				return err
+			}
+			if n2 != nil {
+				if err := la.AssembleValue().AssignNode(n2); err != nil {
+					return err
+				}
+			}
+			return la.Finish()
+		}
 		if err := prog.focusedTransform(nil, la.AssembleValue(), p2, fn, createParents); err != nil {
 			return err
 		}
